@@ -209,8 +209,203 @@ def oracle(ctx, orc, focus=None):
     orc["samples"] = [{"source": r["src"][:300], "listing": r["proc"]["lst"].decode("latin-1")[:400]} for r in ok[::k]][:4]
 
 
+# ---------------------------------------------------------------- model vs implementation
+
+MODEL_CPUS = ("msp430", "riscv")
+
+
+def wire(prog, pr, ext, enc=None):
+    """`lst` protocol line of the model driver for a program, or None when the program is outside the model
+    (instructions of a CPU without formatter model, statement extents unknown).  Instruction encodings (bytes, pad and
+    mark kinds) are taken from the real image between the labels of the instrumented copy; `enc` (statement index ->
+    bytes, from the harness command asm1) replaces the image where later statements overwrite it."""
+    cpu = prog["cpu"]
+    image, kinds = pr["image"], pr["kinds"]
+    ins = list(ext["ins"]) if ext else []
+    pos = [0]
+    bad = [False]
+
+    def one(it, toks, quiet):
+        k = it[0]
+        if k == "ins":
+            if cpu not in MODEL_CPUS or pos[0] >= len(ins):
+                bad[0] = True
+                return
+            s, e, text = ins[pos[0]]
+            n = pos[0]
+            pos[0] += 1
+            if e < s or e - s > 64:
+                bad[0] = True
+                return
+            em = []
+            if enc is not None:
+                if enc.get(n) is None:
+                    bad[0] = True
+                    return
+                bs = enc[n]
+                if len(bs) != e - s:
+                    bad[0] = True
+                    return
+                if cpu == "msp430" and s % 2 == 1:
+                    em.append("d%02x" % bs[0])           # the pad byte
+                    bs = bs[1:]
+                em += ["c%02x" % b for b in bs]
+            else:
+                for a in range(s, e):
+                    kd = kinds.get(a)
+                    if kd is None:
+                        bad[0] = True
+                        return
+                    em.append({"d": "d", "c": "c", "n": "n"}[kd] + "%02x" % image[a])
+            toks.append(("inq:1:" if quiet else "ins:1:") + (",".join(em) or "-"))
+        elif k == "rep":
+            toks.append(("req:1:%x" if quiet else "rep:1:%x") % it[1])
+            for x in it[2]:
+                one(x, toks, quiet)
+            toks.append("endr")
+        elif k == "mac":
+            for x in it[2]:
+                one(x, toks, quiet)
+        elif k == "inc":
+            for x in it[2]:
+                one(x, toks, True)
+        else:
+            w = GL.G.wire({"name": cpu}, [it if k != "lab" else ("lab", it[1])])
+            toks += w.split(" ")[2:]
+    toks = []
+    for it in prog["items"]:
+        one(it, toks, False)
+    if bad[0]:
+        return None
+    return "lst " + cpu + (" " + " ".join(toks) if toks else "")
+
+
+def fields(ans):
+    d = {}
+    for kv in ans.split(" "):
+        k, _, v = kv.partition("=")
+        d[k] = v
+    return d
+
+
+def canon_model(ans):
+    if not ans.startswith("st=0"):
+        return ans, None
+    d = fields(ans)
+    lines = []
+    if d["lines"] != "-":
+        for l in d["lines"].split(";"):
+            a, n, ws, cyc, text = l.split("/")
+            lines.append((int(a, 16), int(n), tuple(int(w, 16) for w in ws.split(",") if w), int(cyc),
+                          None if text == "-" else bytes.fromhex(text).decode("latin-1")))
+    out = {"lines": lines, "dump": d["dump"], "syms": d["syms"], "ulow": int(d["ulow"], 16), "uhigh": int(d["uhigh"], 16),
+           "img": d["img"], "dbg": d["dbg"], "low": d["low"], "high": d["high"]}
+    return out, d
+
+
+def canon_real(cpu, L, pr):
+    """the same fields from the parsed real listing and the in-process image"""
+    lines = []
+    for l in L["lines"]:
+        bs = l["bytes"]
+        if cpu == "msp430":
+            words = tuple(bs[i] | (bs[i + 1] << 8) for i in range(0, len(bs) - 1, 2))
+            m = LP.re.search(r"cycles: (\?|-?\d+)$", l["raw"][0])
+            cyc = -1 if (m is None or m.group(1) == "?") else int(m.group(1))
+            text = None
+        else:
+            v = 0
+            for i, b in enumerate(bs):
+                v |= b << (8 * i)
+            words = (v,)
+            cyc = 0
+            parts = l["raw"][0].split(None, 2)
+            text = parts[2] if len(parts) > 2 else ""
+        lines.append((l["addr"], len(bs), words, cyc, text))
+    dump = ";".join("%x:%s" % (d["unit"], "".join("__" if c is None else "%02x" % c for c in d["cols"][:d["used"]])) for d in L["dump"]) or "-"
+    syms = ",".join("%s=%x@%d" % (n, a, sc) for (n, a, sc, ex) in L["symbols"]) or "-"
+    f = fields(pr["raw"])
+    return {"lines": lines, "dump": dump, "syms": syms, "ulow": L["low"], "uhigh": L["high"], "img": f["img"], "dbg": f["dbg"],
+            "low": f["low"], "high": f["high"]}
+
+
+def compare(cpu, mo, re_, skip=()):
+    """first differing field, or None"""
+    for k in ("img", "dbg", "low", "high", "syms", "dump", "ulow", "uhigh"):
+        if k in skip:
+            continue
+        if mo[k] != re_[k]:
+            return k, str(mo[k])[:200], str(re_[k])[:200]
+    ml, rl = mo["lines"], re_["lines"]
+    if len(ml) != len(rl):
+        return "lines", "%d lines %r" % (len(ml), ml[:4]), "%d lines %r" % (len(rl), rl[:4])
+    for x, y in zip(ml, rl):
+        if x[:3] != y[:3]:
+            return "line", repr(x), repr(y)
+        if cpu == "msp430" and x[3] != y[3]:
+            return "cycles", repr(x), repr(y)
+        if x[4] is not None and y[4] is not None and x[4] != y[4].rstrip():
+            return "text", repr(x), repr(y)
+    return None
+
+
 def correspondence(ctx, corr):
-    return
+    runs = get_runs(ctx)
+    cases, lines = [], []
+    skipped = collections.Counter()
+    for r in runs:
+        p, proc, pr = r["prog"], r["proc"], r["pr"]
+        if proc["rc"] != 0 or pr["died"] or pr["st"] != 0 or proc["lst"] is None:
+            skipped["rejected"] += 1
+            continue
+        if p.get("shape") == "top":
+            skipped["top (statement extents wrap)"] += 1
+            continue
+        enc = None
+        if p.get("shape") == "overwrite" and p["cpu"] in MODEL_CPUS and r["ext"]:
+            # later statements overwrite earlier code: the encodings come from single-statement assemblies
+            q = ["asm1 %s %x - %s" % (p["cpu"], s_, nvlib.hexs(t)) for (s_, e_, t) in r["ext"]["ins"]]
+            enc = {}
+            for n, a in enumerate(nvlib.run_lines(ctx.harness, q, shards=1, timeout=TIMEOUT)):
+                if a.startswith("ok "):
+                    enc[n] = list(nvlib.unhex(a[3:]))
+                elif a.startswith("ok@ ") and ";" not in a and ":" in a:
+                    enc[n] = list(nvlib.unhex(a[4:].split(":")[1]))
+        r["enc"] = enc
+        w = wire(p, pr, r["ext"], enc)
+        if w is None:
+            skipped["outside the model (instructions of an unmodelled CPU)"] += 1
+            continue
+        cases.append(r)
+        lines.append(w)
+    model = nvlib.run_lines(ctx.driver, lines, env=dict(os.environ), timeout=TIMEOUT * 3)
+    by_cpu = collections.Counter()
+    by_shape = collections.Counter()
+    nontrivial = set()
+    flags = collections.Counter()
+    for r, w, a in zip(cases, lines, model):
+        p, proc, pr = r["prog"], r["proc"], r["pr"]
+        cpu = p["cpu"]
+        corr["cases"] += 1
+        by_cpu[cpu] += 1
+        by_shape[p.get("shape", "?")] += 1
+        if w.count(" ") >= 4:
+            nontrivial.add(w)
+        mo, d = canon_model(a)
+        if d is None:
+            corr["disagreements"].append({"line": w, "source": r["src"], "impl": "st=0", "model": str(mo)[:200]})
+            continue
+        L = LP.parse(proc["lst"].decode("latin-1"), cpu, bpa=pr["bpa"], big=pr["end"] == "b")
+        diff = compare(cpu, mo, canon_real(cpu, L, pr), skip=("dbg",) if r.get("enc") is not None else ())
+        if diff:
+            corr["disagreements"].append({"line": w, "source": r["src"], "field": diff[0], "model": diff[1], "impl": diff[2]})
+        r["model"] = d
+        flags["exact=%s nodup=%s nowrap=%s" % ("all" if "0" not in d["exact"] else "not-all", d["nodup"], d["nowrap"])] += 1
+    corr["streams"]["lst-vs-model"] = {"programs": len(cases), "by_cpu": dict(by_cpu), "by_shape": dict(by_shape),
+                                       "skipped": dict(skipped), "theorem_hypotheses": dict(flags)}
+    corr["distinct_nontrivial"] = len(nontrivial)
+    k = max(1, len(cases) // 4)
+    corr["samples"] = [{"line": lines[i][:300], "model": model[i][:300]} for i in range(0, len(cases), k)][:4]
 
 
 def replay(ctx, rec):
